@@ -1,0 +1,18 @@
+//go:build verif
+// +build verif
+
+package gf2p16
+
+// VerifTables returns copies of the log and exp tables built by init.
+func VerifTables() (logT []uint16, expT []T) {
+	logT = make([]uint16, len(logTable))
+	copy(logT, logTable[:])
+	expT = make([]T, len(expTable))
+	copy(expT, expTable[:])
+	return logT, expT
+}
+
+// VerifMulTableEntry returns mulTable[c].s0[b] and mulTable[c].s8[b].
+func VerifMulTableEntry(c T, b byte) (s0, s8 T) {
+	return mulTable[c].s0[b], mulTable[c].s8[b]
+}
